@@ -30,7 +30,7 @@ ASSUMPTIONS = [
     "('a','F',' '), the buffer's own bytes (self-append, cursor into the destination), {NULL,0}, or a fake-huge cursor "
     "(len in {SIZE_MAX/2, SIZE_MAX/2+1, SIZE_MAX-1, SIZE_MAX} over one valid byte) given only to calls that must refuse it",
     "bufw bounds: capacity <=3 (quick) / <=4 (thorough) explored to the FIXPOINT (histories of every length); capacity <=6 to "
-    "depth 4 (quick) / 6 (thorough); growth that would exceed the capacity bound, and huge reservations that would really "
+    "depth 5 (quick) / 6 (thorough; 5 in the Debug-build pass); growth that would exceed the capacity bound, and huge reservations that would really "
     "allocate (OOM aborts in aws_mem_acquire), are not enabled",
     "cur: one cursor over every source of <=5 bytes from {'a','F',' '}, every sub-range, or {NULL,0}; explored to the fixpoint",
     "states are de-duplicated on a 128-bit hash of the canonical state (hash compaction)",
